@@ -165,6 +165,8 @@ def raster(draw, accessor=False):
     Y, X = draw(st.integers(1, 12)), draw(st.integers(1, 12))
     if draw(st.integers(0, 5)) == 0:
         Y, X = draw(st.integers(20, 60)), draw(st.integers(20, 60))
+        if T * Y * X > 8000:  # Hypothesis lists stop at 8192 elements
+            T = 1
     nz = draw(st.integers(1, 40))
     dt = draw(st.sampled_from(["int16", "float32", "float64", "int32"] if accessor else ["int16", "float32", "float64"]))
     n = T * Y * X
